@@ -13,6 +13,8 @@ struct Tr<'u> {
     notes: Vec<String>,
     /// opaque calls met in the function being translated: (callee, parameter name, type)
     opaque: Vec<(String, String, Ty)>,
+    /// the current request's `ignore_assign`
+    req_ignore_assign: Vec<String>,
 }
 
 fn norm(ts: impl ToTokens) -> String {
